@@ -123,6 +123,10 @@ def _compute_constraints_of_existence_function(expression, ir):
     """Computes the constraints of a $has(field) expression."""
     field_path = expression.function.args[0].field_reference.path[-1]
     field = ir_util.find_object(field_path, ir)
+    if isinstance(field, ir_data.RuntimeParameter):
+        # Parameters have no existence condition: they are always present.
+        expression.type.boolean.value = True
+        return
     compute_constraints_of_expression(field.existence_condition, ir)
     ir_data_utils.builder(expression).type.CopyFrom(field.existence_condition.type)
 
